@@ -1006,6 +1006,7 @@ _reg("numpy.fft.fftfreq", h_fftfreq)
 _reg("numpy.searchsorted", h_searchsorted)
 _reg("numpy.stack", h_stack)
 _reg("numpy.vstack", lambda I, a, k, st, n: h_stack(I, [a[0], X.const(0)], {}, st, n))
+_reg("numpy.column_stack", lambda I, a, k, st, n: h_stack(I, [a[0], X.const(1)], {}, st, n))
 _reg("numpy.linalg.qr", h_qr)
 _reg("builtins.isinstance", h_isinstance)
 _reg("builtins.dict", h_dict)
